@@ -40,7 +40,24 @@ def run_unit(unit, repo, seed, rlimit):
         g, path = build_unit(unit, repo)
     except (gen.GenError, gen.rl.LexError) as e:
         return dict(unit=unit, infra="extraction: %s" % e, wall_s=time.time() - t0)
-    r = verus.run(path, rlimit=rlimit, seed=seed)
+    # identical generated text + identical flags => identical verifier run: reuse the recorded result of this exact input
+    import hashlib, pickle
+    key = hashlib.sha256((open(path, encoding="utf-8").read() + "|%s|%s" % (rlimit, seed)).encode()).hexdigest()
+    cpath = os.path.join(BUILD, "cache", key + ".pkl")
+    r = None
+    if os.environ.get("VX_NOCACHE") != "1" and os.path.exists(cpath):
+        try:
+            r = pickle.load(open(cpath, "rb"))
+            r["cached"] = True
+        except Exception:
+            r = None
+    if r is None:
+        r = verus.run(path, rlimit=rlimit, seed=seed)
+        if r.get("rc") in (0, 1) and r.get("summary"):
+            os.makedirs(os.path.dirname(cpath), exist_ok=True)
+            tmp = cpath + ".%d.tmp" % os.getpid()
+            pickle.dump(r, open(tmp, "wb"))
+            os.replace(tmp, cpath)
     attributed = [verus.attribute(d, g, path) for d in r["diagnostics"]]
     return dict(unit=unit, g=g, path=path, res=r, attributed=attributed, wall_s=time.time() - t0)
 
@@ -270,7 +287,7 @@ def write_evidence(prop, P, tier, seed, runs, first, obs, failures, violations, 
                 extraction.append(dict(unit=unit, file=it["file"], item=it["path"], lines=it["lines"], sha256=it["sha256"][:16],
                                        rewrites=it["rules"]))
         smt_ms += ur["res"].get("smt_ms") or 0
-        cmds.append(ur["res"]["cmd"])
+        cmds.append(ur["res"]["cmd"] + (" [result reused: identical generated text and flags as an earlier run in this /verif/.build]" if ur["res"].get("cached") else ""))
         for fid, f in g.fns.items():
             if prop in f.get("all_props", f["props"]):
                 fn_stats.append(dict(fn=fid, src="%s:%d-%d" % (f["file"], f["src_lines"][0], f["src_lines"][1]),
